@@ -3,10 +3,48 @@
 use crate::fw::Cx;
 
 pub mod c01;
+pub mod c02;
+pub mod c03;
+pub mod c04;
+pub mod c05;
+pub mod c06;
+pub mod c07;
+pub mod c08;
+pub mod c09;
+pub mod c10;
+pub mod c11;
+pub mod c12;
+pub mod c13;
+pub mod c14;
+pub mod c15;
+pub mod c16;
+pub mod c17;
+pub mod c18;
+pub mod c19;
+pub mod c20;
 
 pub fn lookup(id: &str) -> Option<fn(&mut Cx)> {
     match id {
         "C01" => Some(c01::run),
+        "C02" => Some(c02::run),
+        "C03" => Some(c03::run),
+        "C04" => Some(c04::run),
+        "C05" => Some(c05::run),
+        "C06" => Some(c06::run),
+        "C07" => Some(c07::run),
+        "C08" => Some(c08::run),
+        "C09" => Some(c09::run),
+        "C10" => Some(c10::run),
+        "C11" => Some(c11::run),
+        "C12" => Some(c12::run),
+        "C13" => Some(c13::run),
+        "C14" => Some(c14::run),
+        "C15" => Some(c15::run),
+        "C16" => Some(c16::run),
+        "C17" => Some(c17::run),
+        "C18" => Some(c18::run),
+        "C19" => Some(c19::run),
+        "C20" => Some(c20::run),
         _ => None,
     }
 }
